@@ -989,6 +989,56 @@ theorem response_completes (evs : List Ev) (fr : Frame) (g : Dg) (d : List UInt8
   rw [hdel]
   simp only [↓reduceIte, Bool.false_eq_true, and_false]
   rw [arrOutcome_append_single hnone, dgOf_unique (nodup_of_ridsOf hsent hfrs) hg]
-  simp [respOutcome_ne_pending]
+  simp
+
+/-! ### non-vacuity: concrete runs that meet the hypotheses and exercise every branch -/
+
+/-- a response for a frame with two 2-byte datagrams at 26..28 and 40..42 -/
+def resp2 (a b : List UInt8) (w0 w1 : UInt8) : List UInt8 :=
+  zeros 26 ++ a ++ [w0, 0] ++ zeros 10 ++ b ++ [w1, 0]
+
+def demo : List Ev :=
+  [.submit 0 2, .submit 1 2, .submit 2 2000, .submit 3 2, .quiesce, .cancel 3,
+   .deliver 0 (resp2 [0xaa, 0xbb] [0xcc, 0xdd] 0 1), .quiesce]
+
+-- requests 0, 1 share frame 0 (shipped when the unsendable request 2 turns up); request 3, queued behind 2, still goes out
+example : (run init demo).sent = [⟨0, [⟨26, 28, 0⟩, ⟨40, 42, 1⟩]⟩, ⟨1, [⟨26, 28, 3⟩]⟩] := by decide
+example : (run init demo).futs.get 0 = some .ecError := by decide
+example : (run init demo).futs.get 1 = some (.result [0xcc, 0xdd]) := by decide
+example : (run init demo).futs.get 2 = some .overflow := by decide
+example : (run init demo).futs.get 3 = some .cancelled := by decide
+example : accepted init demo = [0, 1, 3] := by decide
+
+-- the count limit: 16 empty datagrams make a frame of 15 and a frame of 1
+example : ((run init ((List.range 16).map (fun r => Ev.submit r 0) ++ [.quiesce])).sent.map fun fr => fr.dgs.length) = [15, 1] := by
+  decide
+
+-- the size limit: 1472 bytes is the largest sendable payload
+example : sendable 1472 = true ∧ sendable 1473 = false := by decide
+
+-- hypotheses of `unsendable_fails`
+example : (2, 2000) ∈ (run init (demo.take 4)).queue ∧ sendable 2000 = false := by decide
+
+-- hypotheses of `response_completes` (request 1 in frame 0, after the first quiesce)
+example : (⟨0, [⟨26, 28, 0⟩, ⟨40, 42, 1⟩]⟩ : Frame) ∈ (run init (demo.take 5)).waiting ∧
+    (run init (demo.take 5)).futs.get 1 = some .pending := by decide
+
+-- hypotheses of `independence`: for request 1, the cancellation of 3 is dropped and the response
+-- differs in request 0's bytes and working counter
+def demo' : List Ev :=
+  [.submit 0 2, .submit 1 2, .submit 2 2000, .submit 3 2, .quiesce, .lose 7,
+   .duplicate 0 (resp2 [0x11, 0x22] [0xcc, 0xdd] 5 1), .quiesce]
+
+example : Sim 1 init demo demo' := by
+  refine .cons (.same _) (.cons (.same _) (.cons (.same _) (.cons (.same _) (.cons (.same _) (.cons (.other ?_ trivial)
+    (.cons (.resp 0 _ _ rfl rfl (by decide) ?_) (.cons (.same _) (.nil _))))))))
+  · show (3 : Nat) ≠ 1; decide
+  · intro fr hfr hid
+    apply sameFor_of_bytes
+    revert fr
+    decide
+
+example : (run init demo').futs.get 1 = some (.result [0xcc, 0xdd]) ∧ (run init demo').futs.get 0 = some (.result [0x11, 0x22]) := by
+  decide
 
 end Ebv.C12
